@@ -89,7 +89,9 @@ pub fn pick(env: &Env, rng: &mut Rng, mix: &Mix) -> Picked {
 /// Returns the new bytes.
 pub fn splice_customs(bytes: &[u8], rng: &mut Rng, n: u32) -> Vec<u8> {
     let mut out = bytes.to_vec();
-    const NAMES: &[&str] = &["foo", "", "bar", "foo", "linking", "names", "producer", "debug_info", "ünï", "target_features", ".Debug_x", "name2"];
+    // (the `.debug*` names are sections walrus interprets: they are not part of C12's statement themselves, but
+    // uninterpreted sections must keep their payload, multiplicity and relative order AROUND them)
+    const NAMES: &[&str] = &["foo", "", "bar", "foo", "linking", "names", "producer", "debug_info", "ünï", "target_features", ".Debug_x", "name2", ".debug_str", ".debug_info", ".debug_x", "baz"];
     for _ in 0..n {
         let name = *rng.pick(NAMES);
         let len = gen::boundary_len(rng);
